@@ -240,3 +240,30 @@ package graphql
 //@   keeps map[string]*Fragment, map[string]*ast.FragmentDefinition
 //@   loop 4 invariant forall k string :: visited[k] ==> (k in globalFragments)
 //@   loop 5 invariant forall k string :: (k in fragmentDefinitions) ==> (k in globalFragments)
+
+// A resolver that panics fails only its own call: the deferred closure turns the recovered panic into the call's error.
+//@ func SafeExecuteResolver$1
+//@   ghost recovered bool
+//@   entry ghost recovered = false
+//@   call recover ghost recovered = ret0 != nil
+//@   ensures recovered ==> deref(err) != nil && deref(result) == nil
+//@   ensures !recovered ==> deref(err) == old(deref(err)) && deref(result) == old(deref(result))
+//@ func SafeExecuteResolver
+//@   requires field != nil
+//@   ghost panicked bool
+//@   entry ghost panicked = false
+//@   call SafeExecuteResolver$1 ghost panicked = callee_recovered
+//@   ensures panicked ==> err != nil && result == nil
+
+//@ func SafeExecuteBatchResolver$1
+//@   ghost recovered bool
+//@   entry ghost recovered = false
+//@   call recover ghost recovered = ret0 != nil
+//@   ensures recovered ==> deref(err) != nil && deref(results) == nil
+//@   ensures !recovered ==> deref(err) == old(deref(err)) && deref(results) == old(deref(results))
+//@ func SafeExecuteBatchResolver
+//@   requires field != nil
+//@   ghost panicked bool
+//@   entry ghost panicked = false
+//@   call SafeExecuteBatchResolver$1 ghost panicked = callee_recovered
+//@   ensures panicked ==> err != nil && results == nil
